@@ -387,7 +387,7 @@ PROPS['C06'] = {
     'verus': ['u_linear'],
     'kani': {
         'quick': [kset('c06', [H(f'c06_wiring_{side}_n{n}', 'linear', f'{n} knots, every finite f64 coordinate; segment replaced by a recording stub', False, LIN)
-                               for side in ('left', 'right') for n in (2, 3, 4, 5)], timeout=1800, extra=['-Z', 'stubbing'])],
+                               for side in ('left', 'right') for n in (2, 3, 4, 5, 12, 24)], timeout=1800, extra=['-Z', 'stubbing'])],
     },
     'probe': True,
     'level': 'other',
@@ -398,7 +398,7 @@ PROPS['C06'] = {
     'assumptions': [FM_NOTE, FM_BITS, FM_ORD, TY_NOTE,
                     'extraction writes f64::EPSILON as the literal 2.220446049250313e-16 (the same double; Verus has no spec for the constant)',
                     'contracts of Poly0::indefinite, Poly1::translate, Poly1::evaluate are assumed here and proved in units u_polycalc / u_polyeval',
-                    'bounded (Kani wiring): 2..5 knots', 'that evaluation between two knots picks the right segment is C02'],
+                    'bounded (Kani wiring): 2..5, 12 and 24 knots', 'that evaluation between two knots picks the right segment is C02'],
 }
 PROPS['C06']['kani']['thorough'] = PROPS['C06']['kani']['quick']
 
